@@ -53,3 +53,28 @@ brk("c08-baseline-dri-drop-length-check", ["C08"],
     "SLICE-CONST", "parseDRI")
 benign("c08-benign-length-check-reordered", ["C08"],
     [("jpeg/baseline/decoder.go", "	if len(data) != 2 {\n		return standard.ErrInvalidData\n	}\n", "	if 2 != len(data) {\n		return standard.ErrInvalidData\n	}\n")])
+# ---------------------------------------------------------------- C17
+brk("c17-baseline-drop-buffer-check", ["C17"],
+    [("jpeg/baseline/encoder.go", "	if len(pixelData) < width*height*components {\n		return nil, standard.ErrBufferTooSmall\n	}\n", "")],
+    "BUFFER-CHECK", "baseline.Encode")
+brk("c17-jpegls-drop-buffer-check", ["C17"],
+    [("jpegls/lossless/encoder.go", "	if len(pixelData) < width*height*components*((bitDepth+7)/8) {\n		return nil, standard.ErrBufferTooSmall\n	}\n", "")],
+    "BUFFER-CHECK", "jpegls/lossless.Encode")
+brk("c17-lossless-drop-dimension-upper-bound", ["C17"],
+    [("jpeg/lossless/encoder.go", "width <= 0 || height <= 0 || width > 65535 || height > 65535", "width <= 0 || height <= 0")],
+    "NARROW", "writeSOF3")
+brk("c17-baseline-drop-dimension-check", ["C17"],
+    [("jpeg/baseline/encoder.go", "	if width <= 0 || height <= 0 || width > 65535 || height > 65535 {\n		// the frame header stores both dimensions in 16-bit fields\n		return nil, standard.ErrInvalidDimensions\n	}\n", "")],
+    "VALIDATE-FIRST", "baseline")
+brk("c17-j2k-drop-codeblock-validation", ["C17"],
+    [("jpeg2000/encoder.go", "	if p.CodeBlockWidth < 4 || p.CodeBlockWidth > 1024 || !isPowerOfTwo(p.CodeBlockWidth) {\n		return fmt.Errorf(\"invalid code-block width: %d (must be power of 2, 4-1024)\", p.CodeBlockWidth)\n	}\n", "")],
+    "", "CodeBlockWidth")
+brk("c17-j2k-drop-tile-validation", ["C17"],
+    [("jpeg2000/encoder.go", "	if p.TileWidth < 0 || p.TileHeight < 0 {\n		return fmt.Errorf(\"invalid tile size: %dx%d (must be >= 0, 0 = single tile)\", p.TileWidth, p.TileHeight)\n	}\n", "")],
+    "VALIDATE-FIRST", "tile")
+benign("c17-benign-validation-in-helper", ["C17"],
+    [("jpeg/lossless/encoder.go", "	if width <= 0 || height <= 0 || width > 65535 || height > 65535 {\n		// the frame header stores both dimensions in 16-bit fields\n		return nil, standard.ErrInvalidDimensions\n	}\n",
+      "	if !validDims(width, height) {\n		return nil, standard.ErrInvalidDimensions\n	}\n"),
+     ("jpeg/lossless/encoder.go", "// Encode encodes pixel data to JPEG Lossless format\n", "func validDims(w, h int) bool { return w >= 1 && h >= 1 && w <= 65535 && h <= 65535 }\n\n// Encode encodes pixel data to JPEG Lossless format\n")])
+benign("c17-benign-buffer-check-reordered", ["C17"],
+    [("jpeg/baseline/encoder.go", "	if len(pixelData) < width*height*components {", "	if need := width * height * components; need > len(pixelData) {")])
